@@ -216,22 +216,24 @@ namespace detail
 		if(bitCount(x) < significantBitCount)
 			return -1;
 
-		genIUType const One = static_cast<genIUType>(1);
+		typedef typename detail::make_unsigned<genIUType>::type genUType;
+
+		genUType const One = static_cast<genUType>(1);
 		int bitPos = 0;
 
-		genIUType key = x;
+		genUType key = static_cast<genUType>(x);
 		int nBitCount = significantBitCount;
 		int Step = sizeof(x) * 8 / 2;
 		while (key > One)
 		{
-			genIUType Mask = static_cast<genIUType>((One << Step) - One);
-			genIUType currentKey = key & Mask;
+			genUType Mask = static_cast<genUType>((One << Step) - One);
+			genUType currentKey = key & Mask;
 			int currentBitCount = bitCount(currentKey);
 			if (nBitCount > currentBitCount)
 			{
 				nBitCount -= currentBitCount;
 				bitPos += Step;
-				key >>= static_cast<genIUType>(Step);
+				key >>= static_cast<genUType>(Step);
 			}
 			else
 			{
